@@ -199,6 +199,23 @@ def encode (env : Env) : Nat → Ty → Val → Builder → Outcome Builder
           let b ← encode env fuel lkb d b
           if flags = 1 then encode env fuel bcs e b else .ok b
         | _, _ => .err "bad value")
+      else if id = "tlb.McBlockExtra" then
+        -- McBlockExtra.MarshalTLB (after the `fix:`) mirrors the decoder: config only in a key block
+        (match v, aux with
+        | .cons _ (.cons k (.cons a (.cons f (.cons o (.cons c .nil))))),
+          .struct (.cons _ _ _ (.cons _ _ kb (.cons _ _ sh (.cons _ _ sf (.cons _ _ oth (.cons _ _ cfg .nil)))))) => do
+          let b ← b.writeUint 0xcca5 16
+          let b ← encode env fuel kb k b
+          let b ← encode env fuel sh a b
+          let b ← encode env fuel sf f b
+          if b.refs.length < cellRefs then do
+            let child ← encode env fuel oth o Builder.empty
+            let b : Builder := { b with refs := b.refs ++ [child.toCell] }
+            match k with
+            | .bool true => encode env fuel cfg c b
+            | _ => .ok b
+          else .err "too many refs"
+        | _, _ => .err "bad value")
       else encode env fuel body v b
     | .encErr _ => .err "marshaling not implemented"
     | .opaque _ => .err "unmodelled"
